@@ -7,7 +7,7 @@ PYTHONPATH="$WT" /venv/bin/python "$D/demo.py" >/dev/null 2>&1; base=$?
 git apply "$D/patch.diff" || { echo "$D: patch does not apply"; exit 2; }
 PYTHONPATH="$WT" /venv/bin/python "$D/demo.py" >/dev/null 2>&1; withp=$?
 tests=$(/venv/bin/python -m pytest -q -p no:cacheprovider tests 2>&1 | tail -1)
-mkdir -p "$D/vout"; cd /verif && VERIF_OUT="$D/vout" VERIF_REPO="$WT" ./check "$P" --tier quick > "$D/check.log" 2>&1; rc=$?
+mkdir -p "$D/vout"; cd /verif && VERIF_OUT="$D/vout" VERIF_REPO="$WT" timeout 2400 ./check "$P" --tier quick > "$D/check.log" 2>&1; rc=$?
 nviol=$(grep -c "^VIOLATION" "$D/check.log")
 cd "$WT" && git checkout -q -- .
 echo "$D: demo_base=$base demo_patched=$withp tests=[$tests] check_rc=$rc violations=$nviol"
